@@ -4,6 +4,7 @@ package advanced
 
 import (
 	"context"
+	"errors"
 	"time"
 
 	"github.com/attestantio/vouch/internal/vnd"
@@ -25,6 +26,8 @@ func VerifC02_OneOff() {
 	err := s.ScheduleJob(ctx, "class", "job", time.Now().Add(T), func(_ context.Context) { runs++ })
 	vnd.Assert(err == nil, "C02.oneoff.accepted")
 	nrun := vnd.IntRange("runjob.calls", 0, 2)
+	// early runs are requested with RunJob or with RunJobIfExists (what the controller uses)
+	ifExists := vnd.Bool("runjob.if-exists-variant")
 	results := make([]error, nrun)
 	returned := make([]bool, nrun)
 	for i := 0; i < nrun; i++ {
@@ -32,7 +35,12 @@ func VerifC02_OneOff() {
 		d := c02Delay("runjob.at")
 		go func() {
 			vnd.Sleep(d)
-			results[i] = s.RunJob(ctx, "job")
+			if ifExists {
+				s.RunJobIfExists(ctx, "job")
+				results[i] = errors.New("no result")
+			} else {
+				results[i] = s.RunJob(ctx, "job")
+			}
 			returned[i] = true
 		}()
 	}
@@ -47,6 +55,7 @@ func VerifC02_OneOff() {
 	vnd.Assert(runs >= 1, "C02.oneoff.never-silently-dropped")
 	vnd.Assert(runs <= 1, "C02.oneoff.never-runs-twice")
 	vnd.Assert(!s.JobExists(ctx, "job"), "C02.oneoff.job-table-empty-afterwards")
+	vnd.Assert(len(s.ListJobs(ctx)) == 0, "C02.oneoff.no-jobs-listed-afterwards")
 	vnd.Assert(s.ScheduleJob(ctx, "class", "job", time.Now().Add(time.Hour), func(_ context.Context) {}) == nil, "C02.oneoff.name-reusable")
 	vnd.Cover("C02.oneoff.done")
 }
